@@ -107,6 +107,13 @@ func (b *Beh) fault(mode int, calls int) error {
 // Snap lists the tagged (wire/func/value/prop/prefix) exported fields of c that are non-zero.
 func Snap(c any) []string {
 	var out []string
+	for {
+		w, isW := c.(*W)
+		if !isW {
+			break
+		}
+		c = w.Target // a substitute stands for the component it wraps
+	}
 	v := reflect.ValueOf(c)
 	if v.Kind() == reflect.Pointer {
 		v = v.Elem()
@@ -185,6 +192,27 @@ type W struct {
 }
 
 func (w *W) Beh() *Beh { return w.Target.(INode).Beh() }
+
+// The substitute has initialization methods of its own (they are logged as "waps" / "winit") which then pass the
+// call on to the component it wraps - as a decorator does. The container calls them only when the substitute is what
+// leaves the before-initialization callbacks.
+func (w *W) AfterPropertiesSet() error {
+	b := w.Beh()
+	b.Log.Add(Event{Kind: "waps", ID: b.ID})
+	if t, ok := w.Target.(interface{ AfterPropertiesSet() error }); ok {
+		return t.AfterPropertiesSet()
+	}
+	return nil
+}
+
+func (w *W) Init() error {
+	b := w.Beh()
+	b.Log.Add(Event{Kind: "winit", ID: b.ID})
+	if t, ok := w.Target.(interface{ Init() error }); ok {
+		return t.Init()
+	}
+	return nil
+}
 func (w *W) String() string {
 	return fmt.Sprintf("W#%d(of %d,%s)", w.Serial, w.TargetID, w.When)
 }
@@ -205,3 +233,21 @@ func NewZ(idx int, b *Beh) any {
 
 // MaskName renders a holder bit set as a qualifier string.
 func MaskName(bits int) string { return fmt.Sprintf("m%d", bits) }
+
+// Stateless nodes: zero-size struct types (in Go all such objects share one address). They have no injection
+// points; their qualifier m63 makes them members of every qualified slice / candidate of every qualified point.
+type ST0 struct{}
+type ST1 struct{}
+type ST2 struct{}
+
+var stBeh = [3]*Beh{{ID: -1, Mask: "m63"}, {ID: -1, Mask: "m63"}, {ID: -1, Mask: "m63"}}
+
+func (*ST0) Beh() *Beh         { return stBeh[0] }
+func (*ST1) Beh() *Beh         { return stBeh[1] }
+func (*ST2) Beh() *Beh         { return stBeh[2] }
+func (*ST0) Qualifier() string { return "m63" }
+func (*ST1) Qualifier() string { return "m63" }
+func (*ST2) Qualifier() string { return "m63" }
+
+// Stateless returns n (0..3) stateless nodes.
+func Stateless(n int) []any { return []any{&ST0{}, &ST1{}, &ST2{}}[:n] }
